@@ -56,6 +56,8 @@ private:
 
     friend class ::tst_QXmppStream;
 
+    // received bytes that end in an incomplete UTF-8 sequence (not decoded yet)
+    QByteArray m_undecodedData;
     QString m_dataBuffer;
     bool m_directTls = false;
     QSslSocket *m_socket = nullptr;
